@@ -20,7 +20,20 @@ import os
 from fractions import Fraction
 
 sys.path.insert(0, os.path.dirname(os.path.abspath(__file__)))
-from pvtx import read, match_brace, lean_str  # noqa: E402
+from pvtx import read as _read, match_brace, lean_str  # noqa: E402
+
+# where `Emitter.inline_helper` looks private helper functions up (set per translated function)
+HELPER = {'src': None, 'depth': 0}
+
+# every source file read, by its path relative to the repository: where private helper functions are looked up
+FILES = {}
+
+
+def read(repo, rel):
+    t = _read(repo, rel)
+    FILES[rel] = t
+    return t
+
 
 
 class Untranslatable(Exception):
@@ -915,6 +928,10 @@ class Emitter:
             return t, ty
         if name in ('clone', 'into', 'borrow') and not args:
             return t, ty
+        if isinstance(ty, tuple) and ty[0] == 'st':
+            r = self.inline_helper(name, (t, ty), args)
+            if r is not None:
+                return r
         raise Untranslatable('method .%s on %r' % (name, ty))
 
     def call(self, f, args):
@@ -967,7 +984,70 @@ class Emitter:
             if callable(fn):
                 return fn(None, [self.ex(a)[0] for a in args]), rty
             return '(%s %s)' % (fn, ' '.join(self.ex(a)[0] for a in args)), rty
+        if f[1][0] == 'Self' and len(f[1]) == 2:
+            r = self.inline_helper(f[1][1], None, args)
+            if r is not None:
+                return r
         raise Untranslatable('call of ' + name)
+
+    # ---- private helper functions of the same source file are translated in place (inlined): a refactoring
+    # that moves a sub-expression into a helper keeps the generated term equal up to `let`s
+    RUST_TY = {'f64': 'f', 'u64': 'n', 'usize': 'n', 'i64': 'i', 'bool': 'b'}
+
+    def inline_helper(self, name, recv, args):
+        """term, type of `recv.name(args)` / `Self::name(args)` for a helper found in `self.helper_src`, or None"""
+        # (module-level state: sub-emitters are created in many places)
+        src = HELPER['src']
+        depth = HELPER['depth']
+        if not src or depth >= 3:
+            return None
+        ft = fn_text(src, name)
+        if ft is None:
+            return None
+        params_txt, body = ft
+        # return type (scalars only)
+        m = re.search(r'\bfn\s+' + re.escape(name) + r'\b[^{;]*?->\s*([A-Za-z0-9_:<>]+)\s*(?:where[^{]*)?\{', src)
+        rty = self.RUST_TY.get(m.group(1)) if m else None
+        if rty is None:
+            return None
+        env = {}
+        lets = []
+        ps = [x.strip() for x in params_txt.split(',') if x.strip()]
+        if ps and re.fullmatch(r'&?\s*(?:mut\s+)?self', ps[0]):
+            if recv is None:
+                return None
+            env['self'] = recv
+            ps = ps[1:]
+        elif recv is not None:
+            return None
+        if len(ps) != len(args):
+            return None
+        self.fresh += 1
+        for i, (ptxt, a) in enumerate(zip(ps, args)):
+            mm = re.fullmatch(r'(?:mut\s+)?(\w+)\s*:\s*&?\s*(\w+)', ptxt)
+            if not mm or mm.group(2) not in self.RUST_TY:
+                return None
+            at, aty = self.ex(a)
+            want = self.RUST_TY[mm.group(2)]
+            if want == 'n' and a[0] == 'num':
+                at, aty = self.nat(a), 'n'
+            if aty != want:
+                return None
+            v = 'h%d_%s' % (self.fresh, mm.group(1))
+            lets.append('let %s := %s; ' % (v, at))
+            env[mm.group(1)] = (v, want)
+        sub = Emitter(env, self.structs, self.methods, self.consts, self.selfty)
+        sub.fresh = self.fresh + 50
+        HELPER['depth'] = depth + 1
+        try:
+            bt, bty = sub.blk(parse_fn_body(body))
+        except Untranslatable:
+            return None
+        finally:
+            HELPER['depth'] = depth
+        if bty != rty:
+            return None
+        return '(%s%s)' % (''.join(lets), bt), rty
 
     def nat(self, e):
         if e[0] == 'num':
@@ -1245,7 +1325,7 @@ class Emitter:
         e.fresh = self.fresh
         e.digits = set(getattr(self, 'digits', set()))
         e.errors = getattr(self, 'errors', {})
-        for k in ('aux', 'auxn', 'fn_name', 'err_type', 'unwrap_tail'):
+        for k in ('aux', 'auxn', 'fn_name', 'err_type', 'unwrap_tail', 'helper_src', 'helper_depth'):
             if hasattr(self, k):
                 setattr(e, k, getattr(self, k))
         return e
@@ -1792,7 +1872,7 @@ class Group:
         self.names = []
 
     def add(self, lean_name, sig, rty_lean, rel, rust_name, src, env, selfty=None, methods=None, consts=None, cut=None,
-            post=None, imp_vars=None, impx=None, unwrap_tail=False):
+            post=None, imp_vars=None, impx=None, unwrap_tail=False, helpers=None):
         """translate `fn rust_name` found in `src` (already narrowed to the right impl block)"""
         self.names.append(lean_name)
         try:
@@ -1805,6 +1885,8 @@ class Group:
             ast = parse_fn_body(body)
             em = Emitter(env, STRUCTS, methods or {}, consts or {}, selfty)
             em.unwrap_tail = unwrap_tail
+            HELPER['src'] = helpers if helpers is not None else FILES.get(rel.split(' ')[0].split(',')[0], src)
+            HELPER['depth'] = 0
             if impx is not None:
                 em.errors = impx
                 em.digits = set()
